@@ -376,9 +376,37 @@ pub fn run<G: Grp>(m: &mut Machine, name: &str, args: &[Val]) -> R<Out> {
                 "msm_pip" => ok1(G::wp(G::A::sum_of_products_pippinger(&pts, &refs, n(2)? as usize))),
                 _ => {
                     // table = concatenation of precomp_256 of every point (library routine)
+                    // optional third argument: how the caller lays the tables out in its buffer
+                    //   0 exact 256-entry chunks, ascending; 1 the rest of the buffer (&mut pre[i*256..]) handed to
+                    //   precomp_256, last table first; 2 as 1, then every third table rebuilt in place;
+                    //   3 exact chunks, each pre-filled with its own point
+                    let style = if args.len() > 2 { n(2)? } else { 0 };
                     let mut pre = vec![G::A::one(); 256 * pts.len()];
-                    for (i, q) in pts.iter().enumerate() {
-                        q.precomp_256(&mut pre[i * 256..(i + 1) * 256]);
+                    match style {
+                        0 => {
+                            for (i, q) in pts.iter().enumerate() {
+                                q.precomp_256(&mut pre[i * 256..(i + 1) * 256]);
+                            }
+                        }
+                        1 | 2 => {
+                            for (i, q) in pts.iter().enumerate().rev() {
+                                q.precomp_256(&mut pre[i * 256..]);
+                            }
+                            if style == 2 {
+                                for (i, q) in pts.iter().enumerate().rev().step_by(3) {
+                                    q.precomp_256(&mut pre[i * 256..]);
+                                }
+                            }
+                        }
+                        3 => {
+                            for (i, q) in pts.iter().enumerate() {
+                                for e in pre[i * 256..(i + 1) * 256].iter_mut() {
+                                    *e = *q;
+                                }
+                                q.precomp_256(&mut pre[i * 256..(i + 1) * 256]);
+                            }
+                        }
+                        _ => return Err("msm_pre256: layout style 0..3".into()),
                     }
                     ok1(G::wp(G::A::sum_of_products_precomp_256(&pts, &refs, &pre)))
                 }
